@@ -211,5 +211,71 @@ def exercise(ctx):
 
             forall(ctx, scenario(), one, n, label=m["name"], shrink=False)
             ctx.count("methods_exercised")
+    if "rest" in ctx.options.get("transport", ""):
+        rest_leg(ctx, rig, classes, cfg)
     ctx.sample({"inner_evaluations": ctx.counters.get("inner_evaluations", 0), "methods": ctx.counters.get("methods_exercised", 0),
                 "config": cfg if cfg and len(str(cfg)) < 1500 else "(large)"})
+
+
+def rest_leg(ctx, rig, classes, cfg):
+    """The timeout that reaches the HTTP session of the emitted REST transport (unary and server-streaming methods with a
+    binding): the service-config timeout of the method, or the explicit per-call timeout. Observed at the boundary between the
+    emitted transport and the HTTP library (AuthorizedSession.request is wrapped; the call still goes to the loopback server)."""
+    from google.auth.transport import requests as auth_requests
+    from google.protobuf import json_format
+    from .c06 import set_string
+    from .c08 import strip_unqueryable
+    from ..refmodels import transcoding as TR
+    seen = []
+    orig = auth_requests.AuthorizedSession.request
+
+    def recording(self, method, url, *a, **kw):
+        seen.append(kw.get("timeout", "absent"))
+        return orig(self, method, url, *a, **kw)
+    auth_requests.AuthorizedSession.request = recording
+    try:
+        for f, svc in ctx.services():
+            for m in svc["methods"]:
+                if m.get("cs") or not m.get("http") or m.get("lro") is not None or m["output"] == ".google.longrunning.Operation":
+                    continue
+                entry = entry_for(cfg, f["package"], svc["name"], m["name"])
+                T = dur(entry["timeout"]) if entry and "timeout" in entry else None
+                dyn = classes(ctx.descriptor(m["input"]))()
+                for seg in TR.parse_uri(m["http"]["uri"])[0]:
+                    if seg[0] == "var":
+                        set_string(dyn, seg[1], "/".join("x1" if s_ in ("*", "**") else s_ for s_ in seg[2]))
+                req = to_python(ctx, m["input"], dyn)
+                out = json_format.MessageToJson(classes(ctx.descriptor(m["output"]))())
+                body = "[" + out + "]" if m.get("ss") else out
+                rig.http.respond = lambda rec, body=body: (200, body, {})
+                client = rig.client(f, svc, "rest")
+                meth = getattr(client, client_method_name(m["name"]))
+                what = f"{svc['name']}.{m['name']} (rest{', server-streaming' if m.get('ss') else ''})"
+                for mode, kw, limit in (("ok", {}, T), ("override-timeout", {"timeout": 7.5}, 7.5)):
+                    del seen[:]
+                    rig.http.take()
+                    t0 = REAL_MONOTONIC()
+                    try:
+                        r = meth(request=req, **kw)
+                        if m.get("ss"):
+                            list(r)
+                    except NotImplementedError:
+                        break
+                    except Exception as e:
+                        ctx.violation("rest-call-raised", f"{what}: {type(e).__name__}: {str(e)[:200]}")
+                        break
+                    elapsed = REAL_MONOTONIC() - t0
+                    ctx.count("rest_timeout_observations")
+                    ctx.nontrivial(["rest-timeout", mode, T is not None, bool(m.get("ss"))])
+                    if len(seen) != 1:
+                        ctx.violation("rest-request-count", f"{what}, {mode}: {len(seen)} HTTP requests issued")
+                        break
+                    got = seen[0]
+                    if limit is None:
+                        if got not in (None, "absent"):
+                            ctx.violation("rest-timeout-unexpected", f"{what}, {mode}: the method has no configured timeout but the HTTP request carries timeout={got!r}")
+                    elif not isinstance(got, (int, float)) or got > limit * 1.005 + 0.25 or got < limit - elapsed - 0.35:
+                        ctx.violation("rest-timeout", f"{what}, {mode}: the HTTP request carries timeout={got!r}, expected about {limit}s "
+                                      f"({'the service-config timeout' if mode == 'ok' else 'the explicit per-call timeout'})")
+    finally:
+        auth_requests.AuthorizedSession.request = orig
